@@ -157,6 +157,8 @@ def xr(f, i, defs=None, depth=0):
         return xr(f, c[0], defs, depth) + ("->" if n.get("arrow") else ".") + n["m"]
     if k in ("CStyleCastExpr", "CXXStaticCastExpr", "CXXReinterpretCastExpr", "CXXFunctionalCastExpr") and c:
         return "(%s)%s" % (n["t"], xr(f, c[0], defs, depth))
+    if k == "ArraySubscriptExpr" and len(c) == 2:
+        return "%s[%s]" % (xr(f, c[0], defs, depth), xr(f, c[1], defs, depth))
     if k == "CXXOperatorCallExpr" and n.get("oop") == "*" and len(c) == 2:
         return "*" + xr(f, c[1], defs, depth)
     if k == "CXXOperatorCallExpr" and len(c) == 3 and n.get("oop") in ("+", "-", "==", "!=", "<", "<=", ">", ">="):
